@@ -396,6 +396,7 @@ public:
     } else if (auto *E = dyn_cast<CXXConstructExpr>(S)) {
       refDecl(E->getConstructor());
       OS << ",\"ctor\":" << jstr(qname(E->getConstructor()->getParent()));
+      if (E->isListInitialization()) OS << ",\"listinit\":1";   // T{a, b}: the arguments are evaluated left to right
       mutArgs(E->getConstructor(), E->getNumArgs(), 0);
     } else if (auto *E = dyn_cast<CXXOperatorCallExpr>(S)) {
       OS << ",\"op\":" << jstr(getOperatorSpelling(E->getOperator()));
